@@ -202,6 +202,7 @@ func (p *Parser) parsePrimary() (Node, error) {
 	case TokenBoolean:
 		return p.parseBoolean()
 	case TokenNull:
+		p.nextToken()
 		return &ValueNode{Value: nil}, nil
 	case TokenLeftParen:
 		return p.parseGroupedExpression()
